@@ -113,6 +113,10 @@ var c01Steps = []string{".Name", ".priv", ".In", ".PIn", ".Nilp", ".Any", ".M", 
 	".99999999999", ".a", ".k", ".version", ".Counter", ".String", ".V", ".Year", ".UTC", ".Super", ".Parentloop", ".Ch"}
 
 var c01Lits = []string{"0", "1", "2", "5", "1.5", `"a"`, `""`, `"1:2"`, `"-1:"`, `":"`, `"%d"`, `"%s"`, `"%99999d"`, `"-2000000000"`, `"-40000000"`, `"-1001"`, "-2000000000", `"2000000000"`, `"a,b"`, `"a,b,c,d"`, `"b"`, "true", "false", `"é"`, `"\\"`,
+	// resource-hungry requests: every one must end in an error or a bounded result, not in gigabytes
+	`f|floatformat:"-2000000000"`, `f|floatformat:2000000000`, `f32|floatformat:"-1001"`, `str|ljust:2000000000`, `str|rjust:"2000000000"`, `str|center:2000000000`, `str|center:-2000000000`,
+	`i|stringformat:"%2000000000d"`, `str|truncatechars:-2000000000`, `long|wordwrap:-1`, `long|wordwrap:0`, `sl|slice:"-2000000000:2000000000"`, `str|get_digit:2000000000`, `long|truncatewords_html:2000000000`,
+	`i|add:i64max`, `i64min|add:i64min`, `2000000000 ^ 2000000000`, `str|linenumbers|linenumbers|linenumbers`, `i|divisibleby:0`, `u64max|get_digit:1`, `i64min|get_digit:1`, `inf|floatformat:3`, `nan|floatformat`, `inf|integer`, `nan|integer`,
 	// ready-made operand pairs of one kind (two random names rarely are): time comparisons, membership in structs and maps
 	"tm < tm", "tm >= tm", "tm == tm", "tm != tm", "tm > tm", "tm <= tm", `"Name" in s`, `"priv" in s`, "1 in im", `"k" in sm`, "nili in sm", "f in fm", "t in bm", "u8 in um", "s in sl", "nili in sl"}
 
@@ -204,7 +208,7 @@ var c01Vocab = func() []string {
 		"and", "or", "not", "in", "true", "false", "as", "export", "with", "only", "if_exists", "reversed", "sorted", "silent", "parsed", "fake", "random", "w", "p", "b", "on", "off", "nil",
 		"0", "1", "2", "7", "10", "1000", "100000", "100001", "99999999999999999999", "1.5", "0.0",
 		`"a"`, `""`, `"1:2"`, `":"`, `"-1:"`, `"%d"`, `"a,b"`, `"a,b,c"`, `"x y z"`, `'q'`, `"`, `'`, `\`, `"\""`, `"/lazy.tpl"`, `"/part.tpl"`, `"/macros.tpl"`, `"/base.tpl"`, `"nope"`, "\x00", "\x01", "\xff",
-		"text", "<a> <b>", "openblock", "Super", "Counter", "Parentloop", "version", "imp_box", "imp_row", "content", "side",
+		"text", "<a> <b>", "openblock", "2000000000", "-2000000000", "Super", "Counter", "Parentloop", "version", "imp_box", "imp_row", "content", "side",
 		"Name", "priv", "In", "PIn", "Nilp", "Any", "M", "F", "privf", "Hello", "PHello", "Var", "Val", "A", "List", "String", "V"}
 	v = append(v, c01Names...)
 	for _, tg := range pongo2.VerifRegisteredTags() {
